@@ -277,6 +277,9 @@ func (m *Mods) pathWritten(addr ssa.Value, path []int, depth int) bool {
 			if x.Addr == addr && depth > 0 {
 				return true // overwrites the enclosing struct or the field itself
 			}
+			if x.Val == addr && depth > 0 && len(path) == 0 {
+				return true // the field's address is stored somewhere (a slice of pointers handed to a callee): it may be written through
+			}
 		case *ssa.FieldAddr:
 			if x.X != addr {
 				continue
